@@ -140,6 +140,57 @@ def wave_nontrivial(case, labels):
     return 'straddles-2000A' in labels or (case['kind'].startswith('quantity') and case['unit'] != 'AA')
 
 
+# ------------------------------------------------------------------ whole frames in one call (round 9 seed C19_9B, built in round 11)
+def frame_cases(tier):
+    shapes = [(260, 4100), ((1 << 20) + 5,)] if tier == 'quick' else [(260, 4100), ((1 << 20) + 5,), (512, 4112), (3 * (1 << 20) - 1,), (1, (1 << 21) + 3)]
+    for shape in shapes:
+        for func in ('airtovac', 'vactoair'):
+            for kind in (('array', 'quantity-nm') if tier == 'quick' else ('array', 'quantity-nm', 'array-f4')):
+                yield dict(shape=list(shape), func=func, kind=kind)
+
+
+def frame_body(case):
+    """one call on a whole wavelength frame (more than 2^20 pixels): the answer for a pixel does not depend on how many other pixels are
+    in the call - it equals the answer of calls on rows / pieces of at most 4100 pixels, which the air_vacuum sub-check judges"""
+    import astropy.units as u
+    from pydl.goddard.astro import airtovac, vactoair
+    f = airtovac if case['func'] == 'airtovac' else vactoair
+    shape = tuple(case['shape'])
+    n = int(np.prod(shape))
+    k = np.arange(n, dtype='f8')
+    # 1500 - 10400 A in no particular order, both sides of the 2000 A threshold everywhere in the frame
+    w = (1500.0 + 8900.0 * np.modf(k * 0.6180339887498949)[0]).reshape(shape)
+    if case['kind'] == 'array-f4':
+        w = w.astype('f4')
+    arg = (w * 0.1) * u.nm if case['kind'] == 'quantity-nm' else w
+    keep = w.copy()
+    out = call(f, arg)
+    flat = (arg.reshape(-1) if shape != (n,) else arg)
+    pieces = [call(f, flat[i:i + 4100]) for i in range(0, n, 4100 * 37)]          # every 37th piece of 4100 pixels, and the last one
+    pieces_at = list(range(0, n, 4100 * 37))
+    last = call(f, flat[n - 4100:])
+    with judge('frame'):
+        if case['kind'] == 'quantity-nm':
+            check(isinstance(out, u.Quantity) and out.unit == u.nm, 'wave:frame-answer-not-in-callers-unit')
+        o = np.asarray(getattr(out, 'value', out))
+        check(o.shape == shape, 'wave:frame-shape', lambda: dict(got=o.shape, want=shape))
+        check(o.dtype == w.dtype or case['kind'] != 'array-f4', 'wave:frame-dtype', lambda: dict(got=str(o.dtype)))
+        of = o.reshape(-1)
+        for i0, pc in zip(pieces_at + [n - 4100], pieces + [last]):
+            pv = np.asarray(getattr(pc, 'value', pc))
+            seg = of[i0:i0 + len(pv)]
+            bad = ~(np.abs(seg - pv) <= 1e-12 * np.abs(pv))
+            check(not bad.any(), 'wave:pixel-of-a-whole-frame-differs-from-the-same-pixel-converted-alone',
+                  lambda: dict(first_bad_pixel=int(i0 + np.flatnonzero(bad)[0]), npixels=n, in_frame=float(seg[bad][0]), alone=float(pv[bad][0]), func=case['func'], kind=case['kind']))
+        wa = w.reshape(-1).astype('f8')
+        oa = of.astype('f8') * (10.0 if case['kind'] == 'quantity-nm' else 1.0)
+        above = wa > 2000.0 * (1 + 1e-6)
+        moved = (oa > wa) if case['func'] == 'airtovac' else (oa < wa)
+        check(bool(moved[above].all()), 'wave:frame-pixel-above-2000A-not-converted', lambda: dict(first=int(np.flatnonzero(above & ~moved)[0]), npixels=n))
+        check(np.array_equal(np.asarray(getattr(arg, 'value', arg)).reshape(shape), keep * (0.1 if case['kind'] == 'quantity-nm' else 1.0)), 'wave:frame-input-modified')
+    note_label('pixels>2^20')
+
+
 # ------------------------------------------------------------------ sdssflux2ab
 @st.composite
 def ab_case(draw):
@@ -361,6 +412,8 @@ def filt_classify(case):
 SUBCHECKS = [
     SubCheck('air_vacuum', wave_body, strategy=wave_case, classify=wave_classify, nontrivial=wave_nontrivial,
              quick=3000, thorough=100000, shards=(8, 16), doc='airtovac / vactoair: thresholds, inverses, input kinds and units'),
+    SubCheck('air_vacuum_frame', frame_body, kind='exhaustive', cases=frame_cases, classify=lambda c: ['n:%d' % int(np.prod(c['shape'])), c['func'], c['kind']], nontrivial=lambda c, l: True,
+             shards=(8, 16), floor=0.0, doc='one airtovac / vactoair call on a whole frame of more than 2^20 pixels: every pixel gets the answer it gets alone'),
     SubCheck('sdssflux2ab', ab_body, strategy=ab_case, classify=lambda c: [c['dtype'], 'rows:%d' % min(c['rows'], 3)],
              nontrivial=lambda c, l: c['rows'] >= 2, quick=1000, thorough=30000, shards=(1, 8), doc='one AB offset per band in flux / magnitude / ivar forms'),
     SubCheck('filter_thru', filt_body, strategy=filt_case, classify=filt_classify, nontrivial=lambda c, l: 'mask-run-inside-band' in l or ('some-band-overlapped' in l and c['direction'] == 'decreasing'),
